@@ -21,10 +21,57 @@ theorem seedsWithBump_append_empty (us : List (List Nat)) (b : Nat) :
   rw [getLast?_append_singleton]
   simp
 
-theorem seedsWithBump_seeds (S : SeedStruct) (b : Nat) :
-    seedsWithBump (seeds S) b = userSeeds S ++ [[b]] := by
+/-- `seeds_with_bump` IS "drop the placeholder, push the bump" — the very list the repaired `find`
+and client paths build, for ANY seed vector. -/
+theorem seedsWithBump_eq_drop (ss : List (List Nat)) (b : Nat) :
+    seedsWithBump ss b = dropTrailingEmpty ss ++ [[b]] := by
+  unfold seedsWithBump dropTrailingEmpty
+  split <;> rfl
+
+theorem dropTrailingEmpty_append_empty (us : List (List Nat)) :
+    dropTrailingEmpty (us ++ [[]]) = us := by
+  unfold dropTrailingEmpty
+  rw [getLast?_append_singleton]
+  simp
+
+/-- Dropping a trailing empty seed never changes the hashed bytes. -/
+theorem dropTrailingEmpty_flatten (ss : List (List Nat)) :
+    (dropTrailingEmpty ss).flatten = ss.flatten := by
+  unfold dropTrailingEmpty
+  split
+  · rename_i h
+    have hne : ss ≠ [] := by
+      intro h0; subst h0; simp at h
+    have hl : ss.getLast hne = [] := by
+      have := List.getLast?_eq_some_getLast hne
+      rw [this] at h
+      exact Option.some.inj h
+    have hd : ss = ss.dropLast ++ [ss.getLast hne] := (List.dropLast_concat_getLast hne).symm
+    rw [hl] at hd
+    conv => rhs; rw [hd]
+    simp
+  · rfl
+
+theorem dropTrailingEmpty_length_le (ss : List (List Nat)) :
+    (dropTrailingEmpty ss).length ≤ ss.length := by
+  unfold dropTrailingEmpty
+  split <;> simp
+
+theorem effSeeds_placeholder (S : SeedStruct) (h : S.placeholder = true) :
+    effSeeds S = userSeeds S := by
+  unfold effSeeds seeds
+  rw [h]
+  exact dropTrailingEmpty_append_empty _
+
+theorem effSeeds_flatten (S : SeedStruct) : (effSeeds S).flatten = (userSeeds S).flatten := by
+  unfold effSeeds
+  rw [dropTrailingEmpty_flatten]
   unfold seeds
-  exact seedsWithBump_append_empty _ _
+  cases S.placeholder <;> simp
+
+theorem seedsWithBump_seeds (S : SeedStruct) (b : Nat) :
+    seedsWithBump (seeds S) b = effSeeds S ++ [[b]] :=
+  seedsWithBump_eq_drop _ _
 
 /-- Replacing the empty last slot and pushing after it give the same concatenation, for ANY seed
 vector (derived or hand-written). -/
@@ -130,14 +177,6 @@ theorem findIn_empty_slot (H : Hash) (us : List (List Nat)) (P : List Nat)
   | cons b bs ih =>
     unfold findIn
     rw [create_empty_slot H us b P hn, ih]
-
-/-- With room for two more slots the `find` paths (which pass the empty slot) compute the canonical
-address of the user seeds. -/
-theorem find_seeds_eq (H : Hash) (P : List Nat) (S : SeedStruct)
-    (hn : (userSeeds S).length + 2 ≤ 16) :
-    find H (seeds S) P = find H (userSeeds S) P := by
-  unfold find seeds
-  exact findIn_empty_slot H _ P hn _
 
 theorem findIn_some (H : Hash) (ss : List (List Nat)) (P : List Nat) (bs : List Nat)
     (k : List Nat) (b : Nat) (h : findIn H ss P bs = some (k, b)) :
